@@ -329,12 +329,17 @@ def _site(e: BaseException, most_common: bool) -> str:
     return f'{f.filename.split("/src/exabgp/")[1]}:{f.name}'
 
 
-def _guard(fn: Any, stage: list, measure: bool) -> Outcome:
+def budget_s(size: int) -> float:
+    """CPU-second backstop for one message: 2 s + 0.5 s per 4096 bytes (the machine is shared and loaded)."""
+    return TIMEOUT_S + 0.5 * size / 4096
+
+
+def _guard(fn: Any, stage: list, measure: bool, size: int = 0, scale: float = 1.0) -> Outcome:
     counter = _Counter()
     old = signal.signal(signal.SIGALRM, _alarm)
     oldv = signal.signal(signal.SIGVTALRM, _alarm)
     signal.setitimer(signal.ITIMER_REAL, WALL_S)
-    signal.setitimer(signal.ITIMER_VIRTUAL, TIMEOUT_S * (6 if measure else 1))
+    signal.setitimer(signal.ITIMER_VIRTUAL, budget_s(size) * scale * (6 if measure else 1))
     out: Outcome
     try:
         try:
@@ -356,7 +361,7 @@ def _guard(fn: Any, stage: list, measure: bool) -> Outcome:
     except RecursionError as e:
         out = Outcome('recursion', 'RecursionError', stage[0], note=_site(e, True))
     except Timeout:
-        out = Outcome('timeout', f'>{TIMEOUT_S}s', stage[0])
+        out = Outcome('timeout', f'>{budget_s(size) * scale:.1f}s', stage[0])
     except Exception as e:  # noqa: BLE001
         out = Outcome('raised', type(e).__name__, stage[0], note=_site(e, False) + ' | ' + str(e)[:120])
     finally:
@@ -368,7 +373,7 @@ def _guard(fn: Any, stage: list, measure: bool) -> Outcome:
     return out
 
 
-def unpack_forced(sh: Shape, ty: int, body: bytes, measure: bool = False) -> Outcome:
+def unpack_forced(sh: Shape, ty: int, body: bytes, measure: bool = False, scale: float = 1.0) -> Outcome:
     reset_caches()
     stage = ['unpack']
 
@@ -377,7 +382,12 @@ def unpack_forced(sh: Shape, ty: int, body: bytes, measure: bool = False) -> Out
         msg = Message.unpack(ty, memoryview(body), sh.neg)
         return force(sh, ty, msg, body, stage)
 
-    return _guard(go, stage, measure)
+    out = _guard(go, stage, measure, len(body), scale)
+    if out.cls == 'timeout' and scale == 1.0:
+        # a backstop that fired is confirmed with three times the budget before it counts
+        again = unpack_forced(sh, ty, body, measure, scale=3.0)
+        return again if again.cls != 'timeout' else out
+    return out
 
 
 def unpack_only(sh: Shape, ty: int, body: bytes, measure: bool = False) -> Outcome:
@@ -391,7 +401,7 @@ def unpack_only(sh: Shape, ty: int, body: bytes, measure: bool = False) -> Outco
             msg.data
         return type(msg).__name__.lower()
 
-    return _guard(go, stage, measure)
+    return _guard(go, stage, measure, len(body))
 
 
 from exabgp.reactor.peer.context import PeerContext  # noqa: E402
@@ -413,7 +423,7 @@ def _peer_context(sh: Shape) -> Any:
     return PeerContext(proto=sh.proto, neighbor=sh.neighbor, negotiated=sh.neg, refresh_enhanced=True, routes_per_iteration=25, peer_id='c03', stats=sh.peer.stats)
 
 
-def read_message(sh: Shape, ty: int, body: bytes, via: str = 'read_message', measure: bool = False, fast: bool = False) -> Outcome:
+def read_message(sh: Shape, ty: int, body: bytes, via: str = 'read_message', measure: bool = False, fast: bool = False, scale: float = 1.0) -> Outcome:
     """The real Protocol.read_message / read_open / read_keepalive on exactly this message.
     `fast`: the neighbor keeps no Adj-RIB-In, has no API consumer and does not log routes."""
     if fast:
@@ -451,4 +461,8 @@ def read_message(sh: Shape, ty: int, body: bytes, via: str = 'read_message', mea
                 sessions.run(_RR(sh).handle_async(ctx, m))
         return type(m).__name__.lower()
 
-    return _guard(go, stage, measure)
+    out = _guard(go, stage, measure, len(body), scale)
+    if out.cls == 'timeout' and scale == 1.0:
+        again = read_message(sh, ty, body, via, measure, fast, scale=3.0)
+        return again if again.cls != 'timeout' else out
+    return out
